@@ -268,8 +268,44 @@ class Runner:
                     c = self.ch.choose(f"t{tid}:finished", len(runnable), free=True)
                 except BaseException as e:  # noqa: BLE001
                     st.error = repr(e)
-            self.running = runnable[c]
-            self.go[runnable[c]].release()
+            self._start_after_finish(st, runnable[c])
+
+    def _start_after_finish(self, st, nxt):
+        """The finished thread hands the baton on and stays as a monitor until the chosen thread has
+        made a step: if that thread turns out to be stuck in a real lock (held by a preempted thread
+        that is waiting for the baton), it is marked blocked and another runnable thread is started
+        instead - otherwise nobody would ever run the lock holder."""
+        import time
+        self.running = nxt
+        self.go[nxt].release()
+        idle, last, cpu0 = 0, st.steps[nxt], None
+        # the common case first: the chosen thread makes a step within a fraction of a millisecond
+        for _ in range(40):
+            if st.steps[nxt] != last or st.finished[nxt] or self.running != nxt:
+                return
+            time.sleep(0.00005)
+        while not st.finished[nxt] and self.running == nxt and st.error is None and not self.stop:
+            time.sleep(BLOCK_POLL)
+            if st.steps[nxt] != last:
+                return  # it runs; from here on its own hand-offs watch over blocking
+            nid = self.native[nxt]
+            state, cpu = _thread_status(nid) if nid is not None else ("?", -1)
+            if state == "S" and cpu >= 0 and (idle == 0 or cpu == cpu0):
+                if idle == 0:
+                    cpu0 = cpu
+                idle += 1
+            else:
+                idle = 0
+            if idle >= BLOCK_CONFIRM:
+                others = [i for i in range(self.n) if not st.finished[i] and i not in self.blocked and i != nxt]
+                if not others:
+                    return  # nothing else can run: run() reports the hang after its timeout
+                self.blocked.add(nxt)
+                st.forced_switches += 1
+                nxt = others[0]
+                self.running = nxt
+                self.go[nxt].release()
+                idle, last, cpu0 = 0, st.steps[nxt], None
 
     def run(self, ops, ch: choice.Chooser):
         if self.broken:
